@@ -193,4 +193,14 @@ CHECKS = {
         floors={"mode=cancel": 0.15, "mode=reattach/old_first=false/read": 0.02, "mode=spoof/other-source": 0.02},
         assumptions=COMMON_ASSUMPTIONS,
     ),
+    "C18": dict(
+        level="exploration",
+        rule=("model-based rapid check: 1..8 keys, histories of 1..40 operations from {feed an envelope for key k on the shared transport, pause / resume the reader of k's logical connection (a paused reader leaves the run loop parked on the hand-off), "
+              "write an envelope on k's logical connection, Cancel(k), Stop()}, the bubble settled after every operation; reference model model.Demux simulates the run loop (FIFO of fed envelopes, lookup/creation of the key's current life, hand-off blocked by a paused reader, drop of the parked envelope on Cancel, new life on next use). "
+              "Oracle: every logical connection received exactly the envelopes the model hands to that life, in order; announcements == key lives; envelopes written on logical connections appear unchanged and in order on the shared transport; writes on a cancelled connection fail without blocking; readers of cancelled connections have returned with an error; Run has returned after Stop; no panic. "
+              "rpc: the C01/C02 generators from 2..4 logical clients through one shared transport into one Server via Demux keyed by source, same oracles. Non-trivial = >=2 keys, a Cancel or a Stop."),
+        jobs=[dict(test="TestC18", quick=3200, thorough=80000), dict(test="TestC18RPC", quick=320, thorough=8000)],
+        floors={"cancel=true": 0.3, "stop=true": 0.03, "cancel_while_parked=true": 0.03},
+        assumptions=COMMON_ASSUMPTIONS,
+    ),
 }
